@@ -103,6 +103,11 @@ CHECKS.update({
             '(once, in order, no foreign), record fields, handler count after every operation; LogsWalk: copy-on-write holds, in-place removal loses the message (TLC) and the real remove_record_handler is explored with '
             'logging\'s own locks as scheduling points; two concurrent whole runs under random schedules; 11 message/argument shapes through the real redaction filter',
             'trusted: TLC, vf/sched.py (logging locks as scheduling points), the uid concretisation (no dots, as make_uid produces)', 'DESIGN.md 5/C19'),
+    'C11': ('TLA+ spec Isolation.tla (heap of descriptor values, NoMutationOfOperands) checked by TLC; every emitted derive/decorate/nest/execute history replayed on real descriptors with all objects re-projected and fingerprinted after every operation; repeated and concurrent runs',
+            'all histories of <=4 (thorough 5) operations {wrap_or_copy, with_args, PhaseOptions, measures, diagnose, plug, PhaseSequence, PhaseGroup, collection.with_args, execute} over <=4 objects; the value of each new '
+            'object must equal the model\'s, no operation may change the projection or the deep structural fingerprint of any object created earlier; one Test executed three times (fresh UNSET measurements, empty state '
+            'dict and diagnoses store, record depends only on that run); two tests sharing a phase object executed concurrently under seeded random schedules (no cross-talk in measurements, attachments, state dict, diagnoses, logs)',
+            'trusted: TLC, the projection / fingerprint functions in checks/c11.py, vf/sched.py for the concurrent runs', 'DESIGN.md 5/C11'),
 })
 
 NOT_APPLICABLE = {
